@@ -3,8 +3,12 @@ package c13
 import (
 	"fmt"
 	"go/ast"
+	"go/constant"
 	"go/parser"
 	"go/token"
+	"go/types"
+	"os"
+	"sort"
 	"path/filepath"
 	"reflect"
 	"strconv"
@@ -286,6 +290,149 @@ func streamConditions(f *ast.File) []string {
 	return out
 }
 
+// ---- round E (review B, C13-3): the exported sets by go/types, not by file and syntax ----
+
+type stubImporter struct{}
+
+func (stubImporter) Import(path string) (*types.Package, error) {
+	p := types.NewPackage(path, path[strings.LastIndex(path, "/")+1:])
+	p.MarkComplete()
+	return p, nil
+}
+
+type checkedPkg struct {
+	pkg   *types.Package
+	info  *types.Info
+	files []*ast.File
+}
+
+// checkPkg type-checks every non-test file of the package in dir.  Imports are stubbed (the
+// resulting errors are ignored): declarations of constants and variables of the package's OWN
+// types are still resolved and constant-folded, in whichever file and in whatever form
+// (typed literal, conversion, named constant, iota-free repetition) they are written.
+func checkPkg(dir string) (*checkedPkg, error) {
+	ents, err := os.ReadDir(dir)
+	if err != nil {
+		return nil, err
+	}
+	fset := token.NewFileSet()
+	var files []*ast.File
+	for _, e := range ents {
+		n := e.Name()
+		if e.IsDir() || !strings.HasSuffix(n, ".go") || strings.HasSuffix(n, "_test.go") {
+			continue
+		}
+		f, err := parser.ParseFile(fset, filepath.Join(dir, n), nil, 0)
+		if err != nil {
+			return nil, err
+		}
+		files = append(files, f)
+	}
+	info := &types.Info{Types: map[ast.Expr]types.TypeAndValue{}, Defs: map[*ast.Ident]types.Object{}}
+	conf := types.Config{Importer: stubImporter{}, Error: func(error) {}}
+	pkg, _ := conf.Check(dir, fset, files, info)
+	if pkg == nil {
+		return nil, fmt.Errorf("type check of %s produced no package", dir)
+	}
+	return &checkedPkg{pkg, info, files}, nil
+}
+
+func isNamed(t types.Type, name string) bool {
+	n, ok := t.(*types.Named)
+	return ok && n.Obj().Name() == name
+}
+
+// constsOf: the string values of ALL package-level constants of the named type, sorted.
+func (c *checkedPkg) constsOf(typ string) []string {
+	set := map[string]bool{}
+	for _, n := range c.pkg.Scope().Names() {
+		k, ok := c.pkg.Scope().Lookup(n).(*types.Const)
+		if !ok || !isNamed(k.Type(), typ) || k.Val().Kind() != constant.String {
+			continue
+		}
+		set[constant.StringVal(k.Val())] = true
+	}
+	var out []string
+	for v := range set {
+		out = append(out, v)
+	}
+	sort.Strings(out)
+	return out
+}
+
+func (c *checkedPkg) constNamed(name string) (string, bool) {
+	k, ok := c.pkg.Scope().Lookup(name).(*types.Const)
+	if !ok || k.Val().Kind() != constant.String {
+		return "", false
+	}
+	return constant.StringVal(k.Val()), true
+}
+
+// errorVars: the package-level variables of the named struct type: the (constant) value of the
+// field `field` of each, sorted; `other` lists what the extractor cannot account for (further
+// fields set in the literal, variables not initialised with a composite literal).
+func (c *checkedPkg) errorVars(typ, field string) (vals, other []string) {
+	for _, f := range c.files {
+		for _, d := range f.Decls {
+			gd, ok := d.(*ast.GenDecl)
+			if !ok || gd.Tok != token.VAR {
+				continue
+			}
+			for _, sp := range gd.Specs {
+				vs := sp.(*ast.ValueSpec)
+				for i, nm := range vs.Names {
+					obj, ok := c.info.Defs[nm].(*types.Var)
+					if !ok || !isNamed(obj.Type(), typ) {
+						continue
+					}
+					if i >= len(vs.Values) {
+						other = append(other, nm.Name+":no-value")
+						continue
+					}
+					cl, ok := vs.Values[i].(*ast.CompositeLit)
+					if !ok {
+						other = append(other, nm.Name+":opaque")
+						continue
+					}
+					found := false
+					for _, el := range cl.Elts {
+						kv, ok := el.(*ast.KeyValueExpr)
+						if !ok {
+							other = append(other, nm.Name+":positional")
+							continue
+						}
+						k, _ := kv.Key.(*ast.Ident)
+						if k != nil && k.Name == field {
+							if tv, ok := c.info.Types[kv.Value]; ok && tv.Value != nil && tv.Value.Kind() == constant.String {
+								vals = append(vals, constant.StringVal(tv.Value))
+								found = true
+							} else {
+								other = append(other, nm.Name+":non-constant")
+							}
+						} else if k != nil {
+							other = append(other, nm.Name+"."+k.Name)
+						}
+					}
+					if !found {
+						other = append(other, nm.Name+":no-"+field)
+					}
+				}
+			}
+		}
+	}
+	sort.Strings(vals)
+	sort.Strings(other)
+	return vals, other
+}
+
+func leanListAll(l []string) string {
+	q := make([]string, len(l))
+	for i, s := range l {
+		q[i] = strconv.Quote(s)
+	}
+	return "some [" + strings.Join(q, ", ") + "]"
+}
+
 func leanList(l []string) string {
 	if len(l) == 0 {
 		return "none"
@@ -304,41 +451,31 @@ func Facts(repo string) (string, error) {
 	parse := func(rel string) (*ast.File, error) { return parser.ParseFile(fset, filepath.Join(repo, rel), nil, 0) }
 	var sb strings.Builder
 	sb.WriteString("-- GENERATED by `harness facts C13` from stanza/*.go and stream/*.go; do not edit.\nnamespace XmppModel.Generated.C13\n\n")
-	emit := func(name, rel, typ string) error {
-		f, err := parse(rel)
-		if err != nil {
-			return err
-		}
-		fmt.Fprintf(&sb, "def %s : Option (List String) := %s\n", name, leanList(typedConsts(f, typ)))
-		return nil
-	}
-	for _, e := range [][3]string{{"messageTypes", "stanza/message.go", "MessageType"}, {"iqTypes", "stanza/iq.go", "IQType"},
-		{"presenceTypes", "stanza/presence.go", "PresenceType"}, {"errorTypes", "stanza/error.go", "ErrorType"},
-		{"stanzaConditions", "stanza/error.go", "Condition"}} {
-		if err := emit(e[0], e[1], e[2]); err != nil {
-			return "", err
-		}
-	}
-	f, err := parse("stream/error.go")
+	stz, err := checkPkg(filepath.Join(repo, "stanza"))
 	if err != nil {
 		return "", err
 	}
-	fmt.Fprintf(&sb, "def streamConditions : Option (List String) := %s\n", leanList(streamConditions(f)))
-	ns := func(name, rel, cname string) error {
-		f, err := parse(rel)
-		if err != nil {
-			return err
-		}
-		if s, ok := namedConst(f, cname); ok {
-			fmt.Fprintf(&sb, "def %s : Option String := some %s\n", name, strconv.Quote(s))
-		} else {
-			fmt.Fprintf(&sb, "def %s : Option String := none\n", name)
-		}
-		return nil
+	str, err := checkPkg(filepath.Join(repo, "stream"))
+	if err != nil {
+		return "", err
 	}
-	for _, e := range [][3]string{{"nsStanzaErr", "stanza/stanza.go", "NSError"}, {"nsStream", "stream/doc.go", "NS"}, {"nsStreamErr", "stream/doc.go", "NSError"}} {
-		if err := ns(e[0], e[1], e[2]); err != nil {
-			return "", err
+	sb.WriteString("/-! every package-level constant of the type, in whichever file and form it is declared (go/types), sorted -/\n")
+	for _, e := range [][2]string{{"messageTypes", "MessageType"}, {"iqTypes", "IQType"}, {"presenceTypes", "PresenceType"},
+		{"errorTypes", "ErrorType"}, {"stanzaConditions", "Condition"}} {
+		fmt.Fprintf(&sb, "def %s : Option (List String) := %s\n", e[0], leanList(stz.constsOf(e[1])))
+	}
+	svals, sother := str.errorVars("Error", "Err")
+	fmt.Fprintf(&sb, "/-- `Err` of every package-level variable of type `stream.Error` -/\ndef streamConditions : Option (List String) := %s\n", leanList(svals))
+	fmt.Fprintf(&sb, "/-- what else those variables set (a default text, …) or the extractor cannot evaluate -/\ndef streamConditionsOther : Option (List String) := %s\n", leanListAll(sother))
+	for _, e := range []struct {
+		name string
+		p    *checkedPkg
+		c    string
+	}{{"nsStanzaErr", stz, "NSError"}, {"nsStream", str, "NS"}, {"nsStreamErr", str, "NSError"}} {
+		if v, ok := e.p.constNamed(e.c); ok {
+			fmt.Fprintf(&sb, "def %s : Option String := some %s\n", e.name, strconv.Quote(v))
+		} else {
+			fmt.Fprintf(&sb, "def %s : Option String := none\n", e.name)
 		}
 	}
 	// the struct tags of the three stanza types (the model of the struct-tag path is written for these)
